@@ -15,7 +15,7 @@ Separate Extraction
   Framing.decrypt_stream Framing.decrypt_segments Framing.cc_open Framing.cc_seal Framing.packets_pinned
   ConnRead.run_reads ConnRead.init_conn
   ConnWrite.wrun HBytes.chunks
-  Charac.cstep Charac.well_typed Z.opp Z.div Z.modulo
+  Charac.cstep Charac.cstep2 Charac.well_typed Z.opp Z.div Z.modulo
   Hap.step Hap.fixed Hap.store_get Hap.empty_world Hap.get_conn
   CatalogGen.char_ctors CatalogGen.svc_ctors Catalog.svc_type Catalog.svc_char_types
   Ids.add_accessory Ids.remove_accessory Ids.instance_ids Ids.empty_container
